@@ -24,13 +24,13 @@ Get(f, x, d) == IF x \in DOMAIN f THEN f[x] ELSE d
 Put(f, x, v) == IF x \in DOMAIN f THEN [f EXCEPT ![x] = v] ELSE f @@ (x :> v)
 NoCur == [has |-> FALSE, v |-> 0, dl |-> 0, deleted |-> FALSE, gen |-> 0]
 NoSec == [has |-> FALSE, v |-> 0, dl |-> 0, gen |-> 0]
-NoEn == [k |-> 0, v |-> 0, dl |-> 0, loader |-> FALSE]
+NoEn == [k |-> 0, v |-> 0, dl |-> 0, loader |-> FALSE, promoted |-> FALSE]
 NoCall == [op |-> "none", k |-> 0, v |-> 0, ttl |-> 0, t |-> 0]
 
 Init0 == [tid |-> "none", line |-> 0, maxsize |-> 0, loading |-> 0, failing |-> 0, now |-> 0,
           cur |-> [k \in KeyDom |-> NoCur], sec |-> [k \in KeyDom |-> NoSec], en |-> <<>>, call |-> NoCall,
           gen |-> 0, secGot |-> <<0, 0, 0>>, secDelByGet |-> FALSE, loaded |-> FALSE, loadv |-> 0, loadttl |-> 0,
-          pendDemote |-> {}, lastfail |-> FALSE, final |-> FALSE, lastdl |-> 0, failedEnt |-> {}, taint |-> [k \in KeyDom |-> -1],
+          pendDemote |-> {}, lastfail |-> FALSE, final |-> FALSE, lastdl |-> 0, failedEnt |-> {}, taint |-> [k \in KeyDom |-> -1], kflost |-> {}, kflostD |-> {}, copied |-> <<>>,
           viol |-> {}, traces |-> 0, gets |-> 0, demotions |-> 0]
 
 V(s, prop, kind) == IF Cardinality(s.viol) >= 60 THEN s ELSE [s EXCEPT !.viol = @ \cup {<<prop, s.tid, s.line, kind>>}]
@@ -48,7 +48,7 @@ DoRet(s, e) ==
   LET c == s.call  k == c.k  cu == s.cur[k] IN
   CASE e.op = "set" ->
          IF e.ok = 1
-         THEN [s EXCEPT !.gen = s.gen + 1, !.taint = [s.taint EXCEPT ![k] = -1],
+         THEN [s EXCEPT !.gen = s.gen + 1, !.taint = [s.taint EXCEPT ![k] = -1], !.kflost = @ \ {k}, !.kflostD = @ \ {k},
                         !.cur = [s.cur EXCEPT ![k] = [has |-> TRUE, v |-> c.v, deleted |-> FALSE, gen |-> s.gen + 1,
                                                        dl |-> s.lastdl]]]     \* the deadline the store computed (C03 checks that computation)
          ELSE s
@@ -75,6 +75,8 @@ DoRet(s, e) ==
              lost == s.final /\ live /\ ~hit /\ s.failing = 0
              g == Vif(f, lost, "C15",
                       IF s.secDelByGet /\ s.secGot[3] = 0 THEN "entry_without_ttl_treated_as_expired_on_promotion"
+                      ELSE IF k \in s.kflost THEN "entry_evicted_without_identical_copy_in_secondary"
+                      ELSE IF k \in s.kflostD THEN "slot_removed_by_worker_after_entry_was_updated_since_its_copy"
                       ELSE "live_value_lost_instead_of_demoted")
              \* a reload defines the key's value from now on
              h == IF s.loaded /\ e.ok = 1
@@ -95,8 +97,10 @@ DoSec(s, e) ==
     [] OTHER -> s
 
 DoSetEv(s, e) ==
-  LET byLoader == s.call.op = "hget" /\ s.loaded IN
-  [s EXCEPT !.en = Put(s.en, e.e, [k |-> e.k, v |-> e.v, dl |-> e.dl, loader |-> byLoader]), !.lastdl = e.dl]
+  LET byLoader == s.call.op = "hget" /\ s.loaded
+      \* created by promotion of a secondary copy: carries the from-secondary flag for the rest of its life
+      prom == IF e.ev = "setnew" THEN (s.call.op = "hget" /\ ~s.loaded /\ s.secGot[1] = 1) ELSE En(s, e.e).promoted
+  IN [s EXCEPT !.en = Put(s.en, e.e, [k |-> e.k, v |-> e.v, dl |-> e.dl, loader |-> byLoader, promoted |-> prom]), !.lastdl = e.dl]
 
 \* eviction hands the entry to the workers
 DoHandoff(s, e) == [s EXCEPT !.pendDemote = @ \cup {e.e}]
@@ -105,15 +109,22 @@ DoHandoff(s, e) == [s EXCEPT !.pendDemote = @ \cup {e.e}]
 DoSecDel(s, e) ==
   LET o == En(s, e.e) IN
   IF e.deleted = 1
-  THEN [Vif(s, e.e \notin s.failedEnt /\ ~(s.sec[o.k].has /\ s.sec[o.k].v = o.v), "C15", "slot_removed_by_worker_without_copy_in_secondary")
-          EXCEPT !.pendDemote = @ \ {e.e}, !.demotions = s.demotions + 1]
+  THEN LET nocopy == e.e \notin s.failedEnt /\ ~(s.sec[o.k].has /\ s.sec[o.k].v = o.v)
+            \* the worker did copy the entry, but a Set updated it in place before the worker removed the slot (D14d)
+            updated == nocopy /\ e.e \in DOMAIN s.copied /\ s.copied[e.e] # o.v
+            s1 == Vif(s, nocopy, "C15", IF updated THEN "slot_removed_by_worker_after_entry_was_updated_since_its_copy"
+                                       ELSE "slot_removed_by_worker_without_copy_in_secondary")
+        IN [s1 EXCEPT !.pendDemote = @ \ {e.e}, !.demotions = s.demotions + 1,
+                      !.kflostD = IF updated THEN @ \cup {o.k} ELSE @]
   ELSE [s EXCEPT !.pendDemote = @ \ {e.e}]
 
 \* direct removal by eviction (no hand-off): the tier must already hold the identical value
 DoMapRemoved(s, e) ==
-  LET o == En(s, e.e) IN
-  Vif(s, e.reason = "EVICTED" /\ e.deleted = 1 /\ s.failing = 0 /\ ~(s.sec[o.k].has /\ s.sec[o.k].v = o.v /\ s.sec[o.k].dl = o.dl),
-      "C15", IF o.loader THEN "loader_entry_evicted_without_demotion" ELSE "entry_evicted_without_identical_copy_in_secondary")
+  LET o == En(s, e.e)
+      badEv == e.reason = "EVICTED" /\ e.deleted = 1 /\ s.failing = 0 /\ ~(s.sec[o.k].has /\ s.sec[o.k].v = o.v /\ s.sec[o.k].dl = o.dl)
+      s1 == Vif(s, badEv, "C15", IF o.promoted THEN "entry_evicted_without_identical_copy_in_secondary"
+                                 ELSE IF o.loader THEN "loader_entry_evicted_without_demotion" ELSE "set_entry_evicted_without_demotion")
+  IN IF badEv /\ o.promoted THEN [s1 EXCEPT !.kflost = @ \cup {o.k}] ELSE s1
 
 DoSettled(s, e) ==
   LET a == Vif(s, e.resident > s.maxsize, "C15", "memory_tier_above_maxsize_after_settling")
@@ -128,7 +139,8 @@ Upd(s0, e) ==
     [] e.ev \in {"setnew", "setupd"} -> DoSetEv(s, e)
     [] e.ev = "load" -> [s EXCEPT !.loaded = TRUE, !.loadv = e.v, !.loadttl = e.ttl]
     [] e.ev = "handoff" -> DoHandoff(s, e)
-    [] e.ev = "secset" -> IF e.ok = 0 THEN [s EXCEPT !.failedEnt = @ \cup {e.e}] ELSE s
+    [] e.ev = "secset" -> IF e.ok = 0 THEN [s EXCEPT !.failedEnt = @ \cup {e.e}]
+                          ELSE [s EXCEPT !.copied = Put(s.copied, e.e, s.sec[En(s, e.e).k].v)]
     [] e.ev = "secdel" -> DoSecDel(s, e)
     [] e.ev = "mapremoved" -> DoMapRemoved(s, e)
     [] e.ev = "settled" -> DoSettled(s, e)
